@@ -341,6 +341,11 @@ class RecurringPattern(Timeline[IvlOut], Generic[IvlOut]):
             )
         else:
             # Small int: seconds from midnight (mask-style, no anchor)
+            if not 0 <= start < DAY:
+                raise ValueError(
+                    f"start must be a time of day in [0, {DAY}) seconds, a Unix "
+                    f"timestamp greater than {DAY}, or a datetime; got {start}"
+                )
             self.anchor_timestamp = None
             self.start_seconds = start
 
